@@ -302,14 +302,20 @@ class Parameter(Term):
         if placeholder and idx:
             raise ValueError("Cannot provide both a placeholder and an idx")
 
+        super().__init__()
         self._placeholder = placeholder
         self._idx = idx
 
     def get_sql(self, ctx: SqlContext) -> str:
         if self._placeholder:
-            return self._placeholder
-
-        return self.IDX_PLACEHOLDERS.get(ctx.dialect, lambda _: self.DEFAULT_PLACEHOLDER)(self._idx)
+            sql = self._placeholder
+        else:
+            sql = self.IDX_PLACEHOLDERS.get(ctx.dialect, lambda _: self.DEFAULT_PLACEHOLDER)(
+                self._idx
+            )
+        if ctx.with_alias:
+            return format_alias_sql(sql, self.alias, ctx)
+        return sql
 
 
 class Parameterizer:
@@ -383,7 +389,10 @@ class Negative(Term):
         # -(a+b) must not render as -a+b, and -(-a) / -(-1) must not render as the comment opener "--"
         if isinstance(self.term, (ArithmeticExpression, Negative)) or term_sql.startswith("-"):
             term_sql = "({})".format(term_sql)
-        return "-{term}".format(term=term_sql)
+        sql = "-{term}".format(term=term_sql)
+        if ctx.with_alias:
+            return format_alias_sql(sql, self.alias, ctx)
+        return sql
 
 
 class ValueWrapper(Term):
@@ -579,7 +588,10 @@ class Values(Term):
         self.field = self.field.replace_table(current_table, new_table)
 
     def get_sql(self, ctx: SqlContext) -> str:
-        return "VALUES({value})".format(value=self.field.get_sql(ctx.copy(with_alias=False)))
+        sql = "VALUES({value})".format(value=self.field.get_sql(ctx.copy(with_alias=False)))
+        if ctx.with_alias:
+            return format_alias_sql(sql, self.alias, ctx)
+        return sql
 
 
 class LiteralValue(Term):
@@ -1116,8 +1128,10 @@ class ComplexCriterion(BasicCriterion):
         )
 
         if ctx.subcriterion:
-            return "({criterion})".format(criterion=sql)
+            sql = "({criterion})".format(criterion=sql)
 
+        if ctx.with_alias:
+            return format_alias_sql(sql, self.alias, ctx)
         return sql
 
     def needs_brackets(self, term: Term) -> bool:
@@ -1862,6 +1876,8 @@ class PseudoColumn(Term):
         self.name = name
 
     def get_sql(self, ctx: SqlContext) -> str:
+        if ctx.with_alias:
+            return format_alias_sql(self.name, self.alias, ctx)
         return self.name
 
 
